@@ -83,6 +83,7 @@ fn run_entry(e: &Entry, input: &[u8], pre: usize, opts: &Opts) -> RunOut {
 pub struct Acc {
     pub violations: Vec<Value>,
     pub per_key: HashMap<(String, &'static str), usize>,
+    pub per_prop: HashMap<&'static str, usize>,
     pub total_violations: usize,
 }
 
@@ -90,12 +91,15 @@ impl Acc {
     fn add(&mut self, def: &str, config: &str, mode: &str, input: &[u8], extra: Value, vs: Vec<Violation>) {
         for x in vs {
             self.total_violations += 1;
-            let k = (def.to_string(), x.rule);
+            let k = (format!("{}|{}", def, x.prop), x.rule);
             let c = self.per_key.entry(k).or_insert(0);
             *c += 1;
-            if *c > 2 || self.violations.len() > 400 {
+            // caps are per property, so that a flood of findings of one property cannot hide another's
+            let pc = self.per_prop.entry(x.prop).or_insert(0);
+            if *c > 2 || *pc > 120 {
                 continue;
             }
+            *pc += 1;
             self.violations.push(json!({
                 "property": x.prop, "level": "R", "rule": x.rule, "detail": x.detail, "def": def, "config": config,
                 "mode": mode, "input_hex": hex(input), "input_text": String::from_utf8_lossy(input), "extra": extra,
@@ -142,7 +146,7 @@ pub fn main(table: &[Entry]) {
         specs.insert(def.name.clone(), (def, g));
     }
 
-    let mut acc = Acc { violations: vec![], per_key: HashMap::new(), total_violations: 0 };
+    let mut acc = Acc { violations: vec![], per_key: HashMap::new(), per_prop: HashMap::new(), total_violations: 0 };
     let mut obs: Vec<u8> = vec![];
     let mut read_stats = ReadStats::default();
     let mut pstats = PartialStats::default();
